@@ -77,11 +77,10 @@ def grid():
 GRID = grid()
 CORE12 = [(y, mo, d) + t for y in (1970, 2000, 1969, 2038, 1, 9999)
           for (mo, d, t) in ((1, 1, TIMES[0]), (12, 31, TIMES[2]))]
-CORE4 = [(1970, 1, 1) + TIMES[0], (2000, 12, 31) + TIMES[2], (1, 1, 1) + TIMES[0], (9999, 12, 31) + TIMES[2]]
+CORE4 = [(1970, 1, 1) + TIMES[0], (2000, 12, 31) + TIMES[2], (1, 1, 1) + TIMES[2], (9999, 12, 31) + TIMES[0]]
 OFFSETS = [0] + [s * m for m in (1, 2, 29, 30, 59, 60, 61, 120, 180, 330, 345, 540, 570, 719, 720, 765, 840,
                                  1380, 1438, 1439) for s in (1, -1)]
 ALL_MINUTES = list(range(-1439, 1440))
-COMPONENTS = ('days', 'hours', 'minutes', 'seconds', 'milliseconds', 'microseconds')
 VALUES = [0, 1, -1, 59, -59, 86399, -86399, 10 ** 6, -10 ** 6]
 SPANS = [{'microseconds': 1}, {'seconds': -86399}, {'days': 1, 'microseconds': -1}, {'days': 10 ** 6},
          {'hours': -1, 'minutes': 59},
@@ -368,14 +367,16 @@ def check_pair(L, a_exp, a, b_exp, b, case, ident):
         L.verdict('compare ' + op, ok, ('v', got[i]) if got is not None else obs, repr(want[i]), case, key)
 
 
-def job_pairs(tier, civils):
+def job_pairs(tier, civils, part, parts):
+    """Pairs (a, b): a = civil at o1 for the o1 of this part, b related to a at every o2."""
     res = Result()
     L = Laws(res)
     for civil in civils:
         built = {}
         for o in OFFSETS:
-            built[o] = build(L, civil, o, {'kind': 'value', 'civil': list(civil), 'offset': o}, ('pairs', civil, o))
-        for o1 in OFFSETS:
+            built[o] = build(L, civil, o, {'kind': 'value', 'civil': list(civil), 'offset': o},
+                             ('pairs', part, civil, o))
+        for o1 in OFFSETS[part::parts]:
             a_exp, a = built[o1]
             if a is None:
                 continue
@@ -441,13 +442,13 @@ def job_spans(tier, part, parts):
 UTC = datetime.timezone.utc
 
 
-def job_host(tier):
+def job_host(tier, civils):
     """Host-supplied datetime objects bound as data ($): naive ones are taken
     as UTC; aware ones carry a stdlib fixed-offset zone."""
     res = Result()
     L = Laws(res)
     one_us = host_span({'microseconds': 1})[0][1]
-    for civil in GRID:
+    for civil in civils:
         naive = datetime.datetime(*civil)
         exp = I.make(*civil, 0)
         case = {'kind': 'host-naive', 'civil': list(civil)}
@@ -500,14 +501,16 @@ def jobs(tier, seed):
         out.append(('minutes-%02d' % i, 'job_minutes', (tier, ALL_MINUTES[i::16])))
     if tier == 'thorough':
         for i in range(18):
-            out.append(('pairs-%02d' % i, 'job_pairs', (tier, GRID[i::18])))
+            out.append(('pairs-%02d' % i, 'job_pairs', (tier, GRID[i::18], 0, 1)))
     else:
         for i, c in enumerate(CORE4):
-            out.append(('pairs-%02d' % i, 'job_pairs', (tier, [c])))
-    n = 11 if tier == 'thorough' else 6
+            for part in range(4):
+                out.append(('pairs-%02d-%d' % (i, part), 'job_pairs', (tier, [c], part, 4)))
+    n = 10
     for i in range(n):
         out.append(('spans-%02d' % i, 'job_spans', (tier, i, n)))
-    out.append(('host', 'job_host', (tier,)))
+    for i in range(4):
+        out.append(('host-%d' % i, 'job_host', (tier, GRID[i::4])))
     return out
 
 
